@@ -182,6 +182,7 @@ def float_pairs():
 
 
 def run(ctx):
+    C.config_matrix(ctx["report"], ctx["rundir"], "C05", ["5!/3!", "C(10,3) * 7 / 7", "200!/198!", "(5!/7!) * 7!", "3!*3! - 3!", "{{3!}}", "sqrt(4!/6)", "x = 6!; 1/x", "x = 6!; x*x/4!", "b = C(6,2); b*b", "5! * -1 * -1 == 5!"])
     _fp = float_pairs()
     _fo = C.run_impl(impl_case, [a for a, _ in _fp] + [b for _, b in _fp], ctx["rundir"], limit=10.0)
     for (a, b), oa, ob in zip(_fp, _fo[:len(_fp)], _fo[len(_fp):]):
